@@ -8,7 +8,7 @@ from lib.vlib import HARNESS
 META = {
     "property_id": "C18",
     "technique": "Coq proof over a Gallina model of the build engine + history correspondence with fresh-process builds",
-    "level_text": "Theorems: per_label_shape (every build, every mode), evaluating_iff_body_runs, lines_chunking_invariant, flush_leaves_empty, second_run_repeats_nothing (lineWriter), run_done_once_last (the complete stream of a build ends with exactly one run-done carrying the requested target's result), output_inside_window (per label the stream is nothing / up-to-date / lone failed / evaluating, then iff the body ran exactly the lines of what it wrote whatever the chunking, then one completion), callback_receives_the_stream / callback_run_done_once_last / callback_label_events (Build/Pump.v, the REPL's run(..., callback=f): whatever the callback raises it is called with the build's complete stream in order and no send stays blocked), stopping_pump_blocks_the_build, stop_at_first_error_refuted, and for every receiver policy callback_holds_a_prefix (received ++ never-received = the build's stream), alive_receiver_blocks_nothing, stopping_pump_blocks_iff (a stop-at-first-error receiver blocks senders exactly when the callback raises for an event that is not the last); Output/Props_C18.v: one_channel_each_stream_in_order (producers of whole-line blocks -- a process's standard output and standard error -- through ONE channel and one copier: any interleaving, any chunking, every line once and intact, each stream in its own order), separate_copiers_refuted (a copier per stream into the one line writer tears lines), writer_per_copier_delivers_its_stream. Correspondence: per-label event sequences of every build vs the model; real lineWriter vs model on random chunkings, two rounds per writer; the four CLI renderers (line, status, JSON, DOT) driven by the event streams of ten real build scenarios (no panic, well-formed JSON stream). Oracles on the implementation: run-done once/last with Run's error, prints inside the evaluating window, evaluating iff body ran, lone failed event for missing dependencies, output of succeeding AND failing bodies (incl. an unterminated last line) delivered exactly once before the completion event; output of real processes started by os.exec / sh.exec / os.output / sh.output that write thousands of numbered lines to one stream, to both in turn, or to both at the same time (atomic whole-line blocks), with fast and slow consumers, several processes per body, failing processes, parallel targets, two processes of one shell command: every delivered line is the next line of its stream, every stream complete, inside the window; the REPL's run(label, callback=f) with callbacks that raise errors (for every non-Print event, every event, the first, every k-th, run-done only) over scripted and random projects and sequences of runs: run returns, the callback receives per label one of the three shapes, run-done once and last with the build's error, and exactly what a plain Events implementation receives for the same builds; every such run is also a case for Build/Pump.v (events sent, which of them raise, events received, events never received), evaluated inside Coq.",
+    "level_text": "Theorems: per_label_shape (every build, every mode), evaluating_iff_body_runs, lines_chunking_invariant, flush_leaves_empty, second_run_repeats_nothing (lineWriter), run_done_once_last (the complete stream of a build ends with exactly one run-done carrying the requested target's result), output_inside_window (per label the stream is nothing / up-to-date / lone failed / evaluating, then iff the body ran exactly the lines of what it wrote whatever the chunking, then one completion), callback_receives_the_stream / callback_run_done_once_last / callback_label_events (Build/Pump.v, the REPL's run(..., callback=f): whatever the callback raises it is called with the build's complete stream in order and no send stays blocked), stopping_pump_blocks_the_build, stop_at_first_error_refuted, and for every receiver policy callback_holds_a_prefix (received ++ never-received = the build's stream), alive_receiver_blocks_nothing, stopping_pump_blocks_iff (a stop-at-first-error receiver blocks senders exactly when the callback raises for an event that is not the last); Output/Props_C18.v: one_channel_each_stream_in_order (producers of whole-line blocks -- a process's standard output and standard error -- through ONE channel and one copier: any interleaving, any chunking, every line once and intact, each stream in its own order), separate_copiers_refuted (a copier per stream into the one line writer tears lines), writer_per_copier_delivers_its_stream. Correspondence: per-label event sequences of every build vs the model; real lineWriter vs model on random chunkings, two rounds per writer; the four CLI renderers (line, status, JSON, DOT) driven by the event streams of ten real build scenarios (no panic, well-formed JSON stream). Oracles on the implementation: run-done once/last with Run's error, prints inside the evaluating window, evaluating iff body ran, lone failed event for missing dependencies, output of succeeding AND failing bodies (incl. an unterminated last line) delivered exactly once before the completion event; output of real processes started by os.exec / sh.exec / os.output / sh.output that write thousands of numbered lines to one stream, to both in turn, or to both at the same time (atomic whole-line blocks), with fast and slow consumers, several processes per body, failing processes, parallel targets, two processes of one shell command: every delivered line is the next line of its stream, every stream complete, inside the window; the REPL's run(label, callback=f) with callbacks that raise errors (for every non-Print event, every event, the first, every k-th, run-done only) over scripted and random projects and sequences of runs: run returns, the callback receives per label one of the three shapes, run-done once and last with the build's error, and exactly what a plain Events implementation receives for the same builds, and a plain run after the runs with a callback reports to the project's own listener again; every such run is also a case for Build/Pump.v (events sent, which of them raise, events received, events never received), evaluated inside Coq.",
     "level_note": "Trusted: as C01; the stream model (Build/Stream.v) composes the engine model's events with the line-writer model and is tied to the code by the protocol oracles (not by a term-by-term comparison of print events); interleavings of parallel targets and of a process's two streams are sampled by the real runner / real processes (the model quantifies over all of them; os/exec's one-pipe-per-distinct-writer behaviour is the Go standard library's and is observed, not modelled).",
     "design_ref": "DESIGN.md §6 C18",
 }
